@@ -247,3 +247,10 @@ def required_pieces(ctx):
     for kind, pieces in need.items():
         for p in pieces:
             ctx.require(f"piece:{kind}:{p}")
+
+
+def passive(ctx, fl, probe):
+    """attach this property's always-on monitor to a foreign workload (the repository's test-suite, see vf/pytest_plugin.py)"""
+    mon = MembershipMonitor(ctx, fl)
+    mon.install(probe)
+    return mon.check_monotonic
